@@ -120,9 +120,10 @@ class LFDA(MahalanobisMixin, TransformerMixin):
 
       # classwise affinity matrix
       dist = pairwise_distances(Xc, metric='l2', squared=True)
-      # distances to k-th nearest neighbor
-      k = min(k, nc - 1)
-      sigma = np.sqrt(np.partition(dist, k, axis=0)[k, :])
+      # distances to k-th nearest neighbor (a class with fewer than k + 1
+      # points uses its furthest member; larger classes keep k)
+      kc = min(k, nc - 1)
+      sigma = np.sqrt(np.partition(dist, kc, axis=0)[kc, :])
 
       local_scale = np.outer(sigma, sigma)
       with np.errstate(divide='ignore', invalid='ignore'):
